@@ -215,14 +215,16 @@ impl FixtureDatabase {
             debug!("  Checking conftest.py at: {:?}", conftest_path);
 
             // First check if the fixture is defined directly in this conftest
-            for def in definitions.iter() {
-                if def.file_path == conftest_path && filter(def) {
-                    info!(
-                        "Found fixture {} in conftest.py: {:?}",
-                        fixture_name, conftest_path
-                    );
-                    return Some(def.clone());
-                }
+            if let Some(def) = definitions
+                .iter()
+                .filter(|def| def.file_path == conftest_path && filter(def))
+                .max_by_key(|def| def.line)
+            {
+                info!(
+                    "Found fixture {} in conftest.py: {:?}",
+                    fixture_name, conftest_path
+                );
+                return Some(def.clone());
             }
 
             // Then check if the conftest imports this fixture
@@ -267,14 +269,21 @@ impl FixtureDatabase {
             "No fixture {} found in conftest hierarchy, checking plugins",
             fixture_name
         );
-        for def in definitions.iter() {
-            if def.is_plugin && !def.is_third_party && filter(def) {
-                info!(
-                    "Found plugin fixture {} via pytest11 entry point: {:?}",
-                    fixture_name, def.file_path
-                );
-                return Some(def.clone());
-            }
+        // Several plugins may provide the same name: choose independently of the order in
+        // which they happened to be registered (smallest path, last definition in that file)
+        if let Some(def) = definitions
+            .iter()
+            .filter(|def| def.is_plugin && !def.is_third_party && filter(def))
+            .min_by(|a, b| {
+                (&a.file_path, std::cmp::Reverse(a.line))
+                    .cmp(&(&b.file_path, std::cmp::Reverse(b.line)))
+            })
+        {
+            info!(
+                "Found plugin fixture {} via pytest11 entry point: {:?}",
+                fixture_name, def.file_path
+            );
+            return Some(def.clone());
         }
 
         // Priority 4: Third-party fixtures (site-packages)
@@ -282,14 +291,19 @@ impl FixtureDatabase {
             "No fixture {} found in plugins, checking third-party",
             fixture_name
         );
-        for def in definitions.iter() {
-            if def.is_third_party && filter(def) {
-                info!(
-                    "Found third-party fixture {} in site-packages: {:?}",
-                    fixture_name, def.file_path
-                );
-                return Some(def.clone());
-            }
+        if let Some(def) = definitions
+            .iter()
+            .filter(|def| def.is_third_party && filter(def))
+            .min_by(|a, b| {
+                (&a.file_path, std::cmp::Reverse(a.line))
+                    .cmp(&(&b.file_path, std::cmp::Reverse(b.line)))
+            })
+        {
+            info!(
+                "Found third-party fixture {} in site-packages: {:?}",
+                fixture_name, def.file_path
+            );
+            return Some(def.clone());
         }
 
         debug!(
@@ -525,16 +539,20 @@ impl FixtureDatabase {
             loop {
                 let conftest_path = current_dir.join("conftest.py");
 
-                // First add fixtures defined directly in the conftest
+                // First add fixtures defined directly in the conftest (last definition wins)
                 for entry in self.definitions.iter() {
                     let fixture_name = entry.key();
-                    for def in entry.value().iter() {
-                        if def.file_path == conftest_path
-                            && !seen_names.contains(fixture_name.as_str())
-                        {
-                            available_fixtures.push(def.clone());
-                            seen_names.insert(fixture_name.clone());
-                        }
+                    if seen_names.contains(fixture_name.as_str()) {
+                        continue;
+                    }
+                    if let Some(def) = entry
+                        .value()
+                        .iter()
+                        .filter(|def| def.file_path == conftest_path)
+                        .max_by_key(|def| def.line)
+                    {
+                        available_fixtures.push(def.clone());
+                        seen_names.insert(fixture_name.clone());
                     }
                 }
 
@@ -573,25 +591,41 @@ impl FixtureDatabase {
         // Priority 3: Plugin fixtures (pytest11 entry points, e.g. workspace editable installs)
         for entry in self.definitions.iter() {
             let fixture_name = entry.key();
-            for def in entry.value().iter() {
-                if def.is_plugin
-                    && !def.is_third_party
-                    && !seen_names.contains(fixture_name.as_str())
-                {
-                    available_fixtures.push(def.clone());
-                    seen_names.insert(fixture_name.clone());
-                }
+            if seen_names.contains(fixture_name.as_str()) {
+                continue;
+            }
+            // Same deterministic choice as resolution (independent of registration order)
+            if let Some(def) = entry
+                .value()
+                .iter()
+                .filter(|def| def.is_plugin && !def.is_third_party)
+                .min_by(|a, b| {
+                    (&a.file_path, std::cmp::Reverse(a.line))
+                        .cmp(&(&b.file_path, std::cmp::Reverse(b.line)))
+                })
+            {
+                available_fixtures.push(def.clone());
+                seen_names.insert(fixture_name.clone());
             }
         }
 
         // Priority 4: Third-party fixtures from site-packages
         for entry in self.definitions.iter() {
             let fixture_name = entry.key();
-            for def in entry.value().iter() {
-                if def.is_third_party && !seen_names.contains(fixture_name.as_str()) {
-                    available_fixtures.push(def.clone());
-                    seen_names.insert(fixture_name.clone());
-                }
+            if seen_names.contains(fixture_name.as_str()) {
+                continue;
+            }
+            if let Some(def) = entry
+                .value()
+                .iter()
+                .filter(|def| def.is_third_party)
+                .min_by(|a, b| {
+                    (&a.file_path, std::cmp::Reverse(a.line))
+                        .cmp(&(&b.file_path, std::cmp::Reverse(b.line)))
+                })
+            {
+                available_fixtures.push(def.clone());
+                seen_names.insert(fixture_name.clone());
             }
         }
 
